@@ -2,8 +2,10 @@
    The third-party parsers (net/url.Parse; net/http.ReadRequest; encoding/json) are
    universally quantified parameters of every theorem. *)
 From Coq Require Import List NArith ZArith Bool.
-From PV Require Import Lib.AmmoBytes Lib.AmmoLines Model.AmmoCommon Model.AmmoUri
-  Proofs.AmmoBytesProofs Proofs.AmmoLinesProofs Proofs.AmmoUriProofs.
+From PV Require Import Lib.AmmoBytes Lib.AmmoDecimal Lib.AmmoLines Model.AmmoCommon Model.AmmoUri
+  Model.AmmoUripost Model.AmmoRaw Model.AmmoJson
+  Proofs.AmmoBytesProofs Proofs.AmmoLinesProofs Proofs.AmmoDecimalProofs Proofs.AmmoUriProofs
+  Proofs.AmmoUripostProofs Proofs.AmmoRawProofs Proofs.AmmoJsonProofs.
 Import ListNotations.
 Local Open Scope N_scope.
 
@@ -36,6 +38,48 @@ Theorem C07_dropcr_invisible : forall l, trim (drop_cr l) = trim l.
 Proof. exact trim_drop_cr. Qed.
 Print Assumptions C07_dropcr_invisible.
 
+(* uripost format (model of the repaired decoder, /repo 6356e4b). Items: header lines,
+   blank lines, requests "size uri [tag]" LF body. Layout: blanks around every line, CRLF or
+   LF, blanks inside header brackets, any number of blank lines anywhere (a body may be
+   followed directly by the next line), and the LF of the very last line may be missing
+   (also when that line is a request with an empty body). Bodies are arbitrary bytes (LF,
+   CR, '[', digits included) and are delivered byte-exact. *)
+Theorem C07_uripost_roundtrip :
+  forall url_parse (items : list (pitem * lay)) (final_nl : bool) (k : nat),
+    forallb (wf_pitem url_parse) items = true ->
+    uripost_entries (map fst items) [] <> [] ->
+    uripost_decode url_parse cfg0 k (render_uripost items final_nl) =
+      map SDeliver (cycle_take k (uripost_entries (map fst items) []) (uripost_entries (map fst items) [])).
+Proof. exact uripost_roundtrip. Qed.
+Print Assumptions C07_uripost_roundtrip.
+
+(* raw format: "size [tag]" LF request-bytes; the delivered ammo is exactly the request bytes
+   (handed to net/http.ReadRequest at Acquire) and the tag. *)
+Theorem C07_raw_roundtrip :
+  forall (items : list (ritem * lay)) (final_nl : bool) (k : nat),
+    forallb wf_ritem items = true ->
+    raw_entries (map fst items) <> [] ->
+    raw_decode cfg0 k (render_raw items final_nl) =
+      map SDeliver (cycle_take k (raw_entries (map fst items)) (raw_entries (map fst items))).
+Proof. exact raw_roundtrip. Qed.
+Print Assumptions C07_raw_roundtrip.
+
+(* http/json at the level of the decoded entities (the JSON text is an oracle): the object
+   stream and the array form both deliver the entities cyclically, each materialised by
+   entity_entry (method, "http://"+host+uri, body, tag, the entity's headers). *)
+Theorem C07_json_cyclic :
+  forall url_parse (ents : list entity) (es : list entry) (k : nat),
+    read_array url_parse ents = Some es -> es <> [] ->
+    json_stream_decode url_parse cfg0 k ents JEof = map SDeliver (cycle_take k es es) /\
+    json_array_decode url_parse cfg0 k ents = Some (map SDeliver (cycle_take k es es)).
+Proof. intros u ents es k H Hne. split; [apply json_stream_cyclic|apply json_array_cyclic]; assumption. Qed.
+Print Assumptions C07_json_cyclic.
+
+(* decimal sizes: Atoi inverts the rendering *)
+Theorem C07_size_roundtrip : forall n, (Z.of_N n <= max_int)%Z -> atoi (dec n) = Some (Z.of_N n).
+Proof. exact atoi_dec. Qed.
+Print Assumptions C07_size_roundtrip.
+
 (* non-vacuity: a concrete file meeting the hypotheses, with headers, CRLF, blanks, no final
    newline; two passes and one more delivery *)
 Definition ex_url (u : bytes) : option (bytes * bytes) := Some (u, []).
@@ -55,3 +99,41 @@ Example C07_uri_example :
        let b := {| e_method := GET; e_url := [47; 98]; e_body := []; e_tag := []; e_headers := [([65], [])] |} in
        [a; b; a; b; a]).
 Proof. split; [vm_compute; reflexivity|]. split; [vm_compute; discriminate|vm_compute; reflexivity]. Qed.
+
+(* uripost: header, body with LF and '[' and digits, no separator after the body, last request
+   with an empty body and no final newline *)
+Definition ex_pitems : list (pitem * lay) :=
+  [ (PHeader [] [65] [32] [] [98] [], {| l_lead := []; l_trail := []; l_cr := true |});
+    (PReq [47; 97] [116; 49] [91; 10; 53; 32; 47; 10], {| l_lead := [32]; l_trail := [9]; l_cr := false |});
+    (PReq [47; 98] [116; 50] [], {| l_lead := []; l_trail := []; l_cr := false |}) ].
+
+Example C07_uripost_example :
+  forallb (wf_pitem ex_url) ex_pitems = true /\
+  render_uripost ex_pitems false =
+    [91;65;32;58;98;93;13;10; 32;54;32;47;97;32;116;49;9;10; 91;10;53;32;47;10; 48;32;47;98;32;116;50] /\
+  uripost_decode ex_url cfg0 3 (render_uripost ex_pitems false) =
+    map SDeliver
+      (let a := {| e_method := POST; e_url := [47; 97]; e_body := [91; 10; 53; 32; 47; 10]; e_tag := [116; 49]; e_headers := [([65], [98])] |} in
+       let b := {| e_method := POST; e_url := [47; 98]; e_body := []; e_tag := [116; 50]; e_headers := [([65], [98])] |} in
+       [a; b; a]).
+Proof. split; [vm_compute; reflexivity|]. split; vm_compute; reflexivity. Qed.
+
+Definition ex_ritems : list (ritem * lay) :=
+  [ (RReq [116] [71; 69; 84; 32; 47; 10; 10], {| l_lead := []; l_trail := [32]; l_cr := true |});
+    (RBlank, {| l_lead := [9]; l_trail := []; l_cr := false |});
+    (RReq [] [80; 10; 10; 53; 32; 120; 10], {| l_lead := []; l_trail := []; l_cr := false |}) ].
+
+Example C07_raw_example :
+  forallb wf_ritem ex_ritems = true /\
+  raw_decode cfg0 3 (render_raw ex_ritems false) =
+    map SDeliver
+      (let a := {| rb_buf := [71; 69; 84; 32; 47; 10; 10]; rb_tag := [116] |} in
+       let b := {| rb_buf := [80; 10; 10; 53; 32; 120; 10]; rb_tag := [] |} in
+       [a; b; a]).
+Proof. split; vm_compute; reflexivity. Qed.
+
+Example C07_json_example :
+  let d := {| j_host := [104]; j_method := GET; j_uri := [47]; j_headers := [([97], [98])]; j_tag := [116]; j_body := [] |} in
+  exists es, read_array ex_url [d; d] = Some es /\ es <> [] /\
+    json_array_decode ex_url cfg0 3 [d; d] = Some (map SDeliver (cycle_take 3 es es)).
+Proof. eexists. split; [vm_compute; reflexivity|]. split; [discriminate|vm_compute; reflexivity]. Qed.
